@@ -405,6 +405,16 @@ def _agree(ck, p):
                     inner = flatten(o[2])
                     if len(inner) == 1 and list(inner)[0][0] == "call" and (list(inner)[0][3] or "").endswith("::is_ignored"):
                         good = len(ret) == 1
+            if not good:
+                # the same test written out: !self.context_hashes.contains(&hash(lint, document))
+                for o in ret:
+                    if o[0] == "un" and o[1] == "Not":
+                        inner = flatten(o[2])
+                        if len(inner) == 1 and list(inner)[0][0] == "call" and last(norm(list(inner)[0][3] or "")) in ("contains", "is_ok"):
+                            ct = c.blocks[list(inner)[0][1]]["t"]
+                            hashed = any(x[0] == "call" and (x[3] or "").endswith(HASH_SUFFIX[0]) for a_ in ct["args"] for x in _deep_roots(c, pv, a_))
+                            on_list = any("context_hashes" in str(y) for a_ in ct["args"][:1] for y in pv.trace_operand(a_)) or any("context_hashes" in field_names(pv.trace_operand(a_)) for a_ in ct["args"][:1])
+                            good = len(ret) == 1 and hashed
             ok = good
             detail += "; closure returns %s" % sorted(map(str, ret))[:2]
         ck.decide(rule, "IgnoredLints::remove_ignored", ok, f.span, detail)
@@ -574,3 +584,17 @@ def _sorted_invariant(ck, p, rule):
             else:
                 ck.refuted(rule, key, f.loc(t["ln"]), "context_hashes is looked up with binary_search, but %s(..) here can leave it unsorted and no sort follows on every path: after it lookups miss hashes that are in the list - ignored lints come back (e.g. after importing an exported list into an instance that already has entries)" % m)
     ck.extra["sorted_vector_mutations"] = n
+
+
+def _deep_roots(f, pv, op, depth=0, seen=None):
+    seen = set() if seen is None else seen
+    out = set()
+    for o in flatten(pv.trace_operand(op)):
+        if o in seen:
+            continue
+        seen.add(o)
+        out.add(o)
+        if o[0] == "call" and depth < 8:
+            for a in f.blocks[o[1]]["t"]["args"]:
+                out |= _deep_roots(f, pv, a, depth + 1, seen)
+    return out
